@@ -175,24 +175,26 @@ def parseNat? (b : Bytes) : Option Nat :=
 /-- `content-length` (CaseInsensitiveDict key, lower-cased) -/
 def contentLengthKey : Bytes := [99, 111, 110, 116, 101, 110, 116, 45, 108, 101, 110, 103, 116, 104]
 
-/-- dict built from the header lines (last occurrence wins), then Content-Length -/
-def stdClenLines : List Bytes → Option Nat → Option Nat
-  | [], cur => cur
+/-- dict built from the header lines (last occurrence wins): the raw value stored under
+    `content-length`; outer `none` = a header line without ": " (`_key_value` raises) -/
+def stdClenLines : List Bytes → Option Bytes → Option (Option Bytes)
+  | [], cur => some cur
   | l :: ls, cur =>
     if l.isEmpty then stdClenLines ls cur
     else match splitKV [] l with
       | none => none
       | some (k, v) =>
-        if k.map lower = contentLengthKey then
-          match parseNat? v with
-          | none => none
-          | some n => stdClenLines ls (some n)
-        else stdClenLines ls cur
+        if k.map lower = contentLengthKey then stdClenLines ls (some v) else stdClenLines ls cur
 
+/-- `int(msg_headers.get("Content-Length", 0))`: only the value that ended up in the dict is parsed -/
 def stdClen (hdr : Bytes) : Option Nat :=
   match splitLines [] hdr with
   | [] => some 0
-  | _ :: ls => stdClenLines ls (some 0)
+  | _ :: ls =>
+    match stdClenLines ls none with
+    | none => none
+    | some none => some 0
+    | some (some v) => parseNat? v
 
 def firstLine (hdr : Bytes) : Bytes := (splitLines [] hdr).headD []
 
